@@ -15,20 +15,18 @@ Ltac fin := repeat match goal with
 
 (* ---- (a) the tables ---- *)
 Lemma mul_table_matches_doc : forall w tl p,
-  observed_mul (St w tl) p =
-  match doc_mul w p with Some t => Yields (St t tl) | None => Raises ETypeError (St w tl) end.
+  erase (observed_mul (St w tl) p) = tdoc w (doc_mul w p).
 Proof. intros; fin; reflexivity. Qed.
 
 Lemma propagation_matches_doc : forall m w,
-  observed_prop m (St w false) =
-  match doc_prop m w with Some t => Yields (St t false) | None => Raises ETypeError (St w false) end.
+  erase (observed_prop m (St w false)) = tdoc w (doc_prop m w).
 Proof. intros; fin; reflexivity. Qed.
 
 Lemma propagation_with_tilt : forall m w,
-  observed_prop m (St w true) =
+  erase (observed_prop m (St w true)) =
   if (match m with Fft => true | Dft => false end) && observed_fft_refuses_tilt
-  then Raises ENotImplementedError (St w true)
-  else match doc_prop m w with Some t => Yields (St t false) | None => Raises ETypeError (St w true) end.
+  then TRaises ENotImplementedError w
+  else tdoc w (doc_prop m w).
 Proof. intros; fin; reflexivity. Qed.
 
 Lemma propagation_only_between_pupil_and_image :
@@ -105,10 +103,7 @@ Proof.
   rewrite (IH _ Hr Fr). rewrite N. reflexivity.
 Qed.
 
-(* with propagate_fft too, as long as the program starts without tilt and uses no tilting class *)
-Definition untilting (o : op cls) : bool :=
-  match o with MulClass k => negb (observed_class_tilts k) | _ => true end.
-
+(* with propagate_fft too, as long as the program starts without tilt and no step attaches one *)
 Lemma step_types_untilted : forall w o, op_claimed o = true -> untilting o = true ->
   erase (step observed (St w false) o) = tstep w o /\
   next (step observed (St w false) o) = St (tnext (tstep w o)) false.
